@@ -88,6 +88,18 @@ enum Node {
     /// 14: `Suspend::new(async { [local.await;] f.await; [local.await;] child })` where `local`
     /// is a `LocalResource` (always pending on the server): flags pre / post
     LocalSuspend { f: u32, pre: bool, post: bool, content: Box<Node> },
+    /// 15: a wrapper that renders exactly its child: 0 `Either::Left`, 1 `Either::Right`,
+    /// 2 `EitherOf3::B`, 3 `Result::Ok`, 4 `OwnedView::new`, 5 leptos `View<T>` (`into_view()`),
+    /// 6 `EitherOf4::D`, 7 `[T; 1]`
+    Wrap(u8, Box<Node>),
+    /// 16: a sequence without end marker: 0 `[AnyView; N]` (N <= 4), 1 `StaticVec`, 2 `Fragment`
+    Seq(u8, Vec<Node>),
+    /// 26: a text node in another representation: 0 `&'static str`, 1 `Cow::Borrowed`,
+    /// 2 `Cow::Owned`, 3 `Arc<str>`, 4 `Oco::Borrowed`, 5 `Oco::Owned`, 6 `Oco::Counted`,
+    /// 7 `u32`, 8 `i64` (the text is the decimal number)
+    TextRep(u8, String),
+    /// 27: element whose children are added by chained `.child(a).child(b)…` calls (2..=4)
+    ElemN(usize, Vec<Node>),
 }
 
 fn parse(s: &Sexp) -> Node {
@@ -118,19 +130,25 @@ fn parse(s: &Sexp) -> Node {
             post: s.at(3).num() != 0,
             content: Box::new(parse(s.at(4))),
         },
+        15 => Node::Wrap(s.at(1).num() as u8, Box::new(parse(s.at(2)))),
+        16 => Node::Seq(s.at(1).num() as u8, s.list()[2..].iter().map(parse).collect()),
+        26 => Node::TextRep(s.at(1).num() as u8, s.at(2).string().unwrap_or_default()),
+        27 => Node::ElemN(s.at(1).num() as usize % 4, s.list()[2..].iter().map(parse).collect()),
         _ => panic!("bad node kind {k}"),
     }
 }
 
 fn futures_of(n: &Node, out: &mut Vec<u32>) {
     match n {
-        Node::Text(_) | Node::RawSync(_) => {}
-        Node::Elem(_, c) | Node::Append(c) | Node::ErrB(c) => futures_of(c, out),
+        Node::Text(_) | Node::RawSync(_) | Node::TextRep(..) => {}
+        Node::Elem(_, c) | Node::Append(c) | Node::ErrB(c) | Node::Wrap(_, c) => futures_of(c, out),
         Node::Suspense(a, b) | Node::Transition(a, b) => {
             futures_of(a, out);
             futures_of(b, out)
         }
-        Node::Tuple(cs) | Node::VecOf(cs) => cs.iter().for_each(|c| futures_of(c, out)),
+        Node::Tuple(cs) | Node::VecOf(cs) | Node::Seq(_, cs) | Node::ElemN(_, cs) => {
+            cs.iter().for_each(|c| futures_of(c, out))
+        }
         Node::Suspend(f, c) | Node::RawAsync(f, c) | Node::Res(f, c) => {
             out.push(*f);
             futures_of(c, out)
@@ -156,9 +174,11 @@ fn has_leptos(n: &Node) -> bool {
     match n {
         Node::ErrB(_) | Node::Suspense(..) | Node::Transition(..) | Node::Res(..) => true,
         Node::LocalSuspend { .. } => true,
-        Node::Text(_) | Node::RawSync(_) => false,
-        Node::Elem(_, c) | Node::Suspend(_, c) | Node::Append(c) | Node::RawAsync(_, c) => has_leptos(c),
-        Node::Tuple(cs) | Node::VecOf(cs) => cs.iter().any(has_leptos),
+        Node::Text(_) | Node::RawSync(_) | Node::TextRep(..) => false,
+        Node::Elem(_, c) | Node::Suspend(_, c) | Node::Append(c) | Node::RawAsync(_, c) | Node::Wrap(_, c) => {
+            has_leptos(c)
+        }
+        Node::Tuple(cs) | Node::VecOf(cs) | Node::Seq(_, cs) | Node::ElemN(_, cs) => cs.iter().any(has_leptos),
         Node::Boundary { fallback, content, .. } => has_leptos(fallback) || has_leptos(content),
         Node::Opt(c) => c.as_ref().map(|c| has_leptos(c)).unwrap_or(false),
     }
@@ -166,12 +186,12 @@ fn has_leptos(n: &Node) -> bool {
 
 fn has_raw(n: &Node) -> bool {
     match n {
-        Node::Text(_) => false,
+        Node::Text(_) | Node::TextRep(..) => false,
         Node::RawSync(_) | Node::RawAsync(..) | Node::Boundary { .. } | Node::Append(_) => true,
         Node::ErrB(_) | Node::Suspense(..) | Node::Transition(..) | Node::Res(..) => true,
         Node::LocalSuspend { .. } => true,
-        Node::Elem(_, c) | Node::Suspend(_, c) => has_raw(c),
-        Node::Tuple(cs) | Node::VecOf(cs) => cs.iter().any(has_raw),
+        Node::Elem(_, c) | Node::Suspend(_, c) | Node::Wrap(_, c) => has_raw(c),
+        Node::Tuple(cs) | Node::VecOf(cs) | Node::Seq(_, cs) | Node::ElemN(_, cs) => cs.iter().any(has_raw),
         Node::Opt(c) => c.as_ref().map(|c| has_raw(c)).unwrap_or(false),
     }
 }
@@ -183,6 +203,23 @@ fn take_rx(rxs: &Rxs, f: u32) -> oneshot::Receiver<()> {
         .unwrap()
         .remove(&f)
         .unwrap_or_else(|| panic!("future {f} used twice"))
+}
+
+/// `&'static str` for a label (labels repeat across cases: bounded)
+fn intern(s: &str) -> &'static str {
+    thread_local! {
+        static POOL: std::cell::RefCell<std::collections::HashMap<String, &'static str>> =
+            std::cell::RefCell::new(std::collections::HashMap::new());
+    }
+    POOL.with(|p| {
+        let mut p = p.borrow_mut();
+        if let Some(r) = p.get(s) {
+            return *r;
+        }
+        let r: &'static str = Box::leak(s.to_string().into_boxed_str());
+        p.insert(s.to_string(), r);
+        r
+    })
 }
 
 fn build(n: &Node, rxs: &Rxs) -> AnyView {
@@ -200,14 +237,92 @@ fn build(n: &Node, rxs: &Rxs) -> AnyView {
         Node::Tuple(cs) => {
             let mut v: VecDeque<AnyView> = cs.iter().map(|c| build(c, rxs)).collect();
             let mut next = || v.pop_front().unwrap();
+            macro_rules! tup {
+                ($($x:tt)*) => { ($({ let _ = stringify!($x); next() },)*).into_any() };
+            }
             match cs.len() {
                 0 => ().into_any(),
-                1 => (next(),).into_any(),
-                2 => (next(), next()).into_any(),
-                3 => (next(), next(), next()).into_any(),
-                4 => (next(), next(), next(), next()).into_any(),
-                5 => (next(), next(), next(), next(), next()).into_any(),
+                1 => tup!(1),
+                2 => tup!(1 2),
+                3 => tup!(1 2 3),
+                4 => tup!(1 2 3 4),
+                5 => tup!(1 2 3 4 5),
+                6 => tup!(1 2 3 4 5 6),
+                7 => tup!(1 2 3 4 5 6 7),
+                8 => tup!(1 2 3 4 5 6 7 8),
+                12 => tup!(1 2 3 4 5 6 7 8 9 10 11 12),
+                16 => tup!(1 2 3 4 5 6 7 8 9 10 11 12 13 14 15 16),
+                25 => tup!(1 2 3 4 5 6 7 8 9 10 11 12 13 14 15 16 17 18 19 20 21 22 23 24 25),
+                26 => tup!(1 2 3 4 5 6 7 8 9 10 11 12 13 14 15 16 17 18 19 20 21 22 23 24 25 26),
                 n => panic!("tuple arity {n}"),
+            }
+        }
+        Node::Wrap(w, c) => {
+            use leptos::either::{Either, EitherOf3, EitherOf4};
+            let c = build(c, rxs);
+            match w {
+                0 => Either::<AnyView, ()>::Left(c).into_any(),
+                1 => Either::<(), AnyView>::Right(c).into_any(),
+                2 => EitherOf3::<(), AnyView, ()>::B(c).into_any(),
+                3 => Ok::<AnyView, std::fmt::Error>(c).into_any(),
+                4 => tachys::reactive_graph::OwnedView::new(c).into_any(),
+                5 => leptos::IntoView::into_view(c).into_any(),
+                6 => EitherOf4::<(), (), (), AnyView>::D(c).into_any(),
+                _ => [c].into_any(),
+            }
+        }
+        Node::Seq(k, cs) => {
+            let mut v: Vec<AnyView> = cs.iter().map(|c| build(c, rxs)).collect();
+            match k {
+                0 => {
+                    let mut it = v.into_iter();
+                    let mut next = || it.next().unwrap();
+                    match cs.len() {
+                        0 => ([] as [AnyView; 0]).into_any(),
+                        1 => [next()].into_any(),
+                        2 => [next(), next()].into_any(),
+                        3 => [next(), next(), next()].into_any(),
+                        4 => [next(), next(), next(), next()].into_any(),
+                        n => panic!("array length {n}"),
+                    }
+                }
+                1 => tachys::view::iterators::StaticVec::from(std::mem::take(&mut v)).into_any(),
+                _ => AnyView::from(tachys::view::fragment::Fragment::new(std::mem::take(&mut v))),
+            }
+        }
+        Node::TextRep(r, s) => {
+            use leptos::oco::Oco;
+            use std::borrow::Cow;
+            match r {
+                0 => intern(s).into_any(),
+                1 => Cow::<'static, str>::Borrowed(intern(s)).into_any(),
+                2 => Cow::<'static, str>::Owned(s.clone()).into_any(),
+                3 => Arc::<str>::from(s.as_str()).into_any(),
+                4 => Oco::<'static, str>::Borrowed(intern(s)).into_any(),
+                5 => Oco::<'static, str>::Owned(s.clone()).into_any(),
+                6 => Oco::<'static, str>::Counted(Arc::from(s.as_str())).into_any(),
+                7 => s.parse::<u32>().expect("number").into_any(),
+                _ => s.parse::<i64>().expect("number").into_any(),
+            }
+        }
+        Node::ElemN(t, cs) => {
+            let mut v: VecDeque<AnyView> = cs.iter().map(|c| build(c, rxs)).collect();
+            let mut next = || v.pop_front().unwrap();
+            macro_rules! chain {
+                ($el:expr) => {
+                    match cs.len() {
+                        2 => $el.child(next()).child(next()).into_any(),
+                        3 => $el.child(next()).child(next()).child(next()).into_any(),
+                        4 => $el.child(next()).child(next()).child(next()).child(next()).into_any(),
+                        n => panic!("chained children {n}"),
+                    }
+                };
+            }
+            match t {
+                0 => chain!(div()),
+                1 => chain!(p()),
+                2 => chain!(span()),
+                _ => chain!(b()),
             }
         }
         Node::Suspend(f, c) => {
@@ -293,11 +408,16 @@ fn res_ids(n: &Node, out: &mut Vec<u32>) {
             res_ids(c, out)
         }
         Node::LocalSuspend { content, .. } => res_ids(content, out),
-        Node::Text(_) | Node::RawSync(_) => {}
-        Node::Elem(_, c) | Node::Suspend(_, c) | Node::Append(c) | Node::RawAsync(_, c) | Node::ErrB(c) => {
-            res_ids(c, out)
+        Node::Text(_) | Node::RawSync(_) | Node::TextRep(..) => {}
+        Node::Elem(_, c)
+        | Node::Suspend(_, c)
+        | Node::Append(c)
+        | Node::RawAsync(_, c)
+        | Node::ErrB(c)
+        | Node::Wrap(_, c) => res_ids(c, out),
+        Node::Tuple(cs) | Node::VecOf(cs) | Node::Seq(_, cs) | Node::ElemN(_, cs) => {
+            cs.iter().for_each(|c| res_ids(c, out))
         }
-        Node::Tuple(cs) | Node::VecOf(cs) => cs.iter().for_each(|c| res_ids(c, out)),
         Node::Boundary { fallback, content, .. } => {
             res_ids(fallback, out);
             res_ids(content, out)
